@@ -90,8 +90,11 @@ def valueToInt (raw : List Char) : Option Nat :=
 /-! ### integer <-> bytes -/
 
 /-- number of bytes of `v` (0 for 0) – the `while value != 0: value >>= 8` loop -/
-def byteLen (v : Nat) : Nat := if h : v = 0 then 0 else 1 + byteLen (v / 256)
-decreasing_by omega
+def byteLenF : Nat → Nat → Nat
+  | 0, _ => 0
+  | f + 1, v => if v = 0 then 0 else 1 + byteLenF f (v / 256)
+/-- fuel `v` is always enough (`v / 256 < v`); structural so that `decide` can evaluate it -/
+def byteLen (v : Nat) : Nat := byteLenF v v
 
 /-- `get_bytes_cnt_of_int(value, align_to_2n, byte_cnt)` for `value ≥ 0`;
     `byte_cnt = 0` models both `None` and `0` (Python tests truthiness). -/
@@ -129,8 +132,10 @@ def bitsOf : Nat → Nat → List Bool   -- little-endian bit list of length n
 
 def ofBitsBE (l : List Bool) : Nat := l.foldl (fun acc b => acc * 2 + (if b then 1 else 0)) 0
 
-def bitLen (v : Nat) : Nat := if h : v = 0 then 0 else 1 + bitLen (v / 2)
-decreasing_by omega
+def bitLenF : Nat → Nat → Nat
+  | 0, _ => 0
+  | f + 1, v => if v = 0 then 0 else 1 + bitLenF f (v / 2)
+def bitLen (v : Nat) : Nat := bitLenF v v
 
 def reverseBits (x bits : Nat) : Nat :=
   let n := max bits (max (bitLen x) 1)   -- `"{:0{n}b}"` never truncates; "0" for 0
